@@ -404,7 +404,7 @@ AcceptN(m, c) ==
     [] m = "pe.cui" -> /\ Len(c) \in {8, 9} /\ IsDigits(SubSeq(c, 1, 8))
                        /\ (Len(c) = 9 => LET r == W(c, <<3, 2, 7, 6, 5, 4, 3, 2>>) % 11
                                          IN c[9] = <<54, 53, 52, 51, 50, 49, 49, 48, 57, 56, 55>>[r + 1] \/ c[9] = <<75, 74, 73, 72, 71, 70, 69, 68, 67, 66, 65>>[r + 1])
-    [] m = "pt.cc" -> /\ Len(c) >= 3 /\ c[Len(c)] \in 48..57 /\ IsDigits(SubSeq(c, 1, Len(c) - 3))
+    [] m = "pt.cc" -> /\ Len(c) = 12 /\ c[Len(c)] \in 48..57 /\ IsDigits(SubSeq(c, 1, Len(c) - 3))
                       /\ (\A i \in (Len(c) - 2)..(Len(c) - 1) : (c[i] \in 48..57) \/ (c[i] \in 65..90))
                       /\ LET n == Len(c) - 1
                              s == Sum(LAMBDA i : LET v == EicVal(c[n + 1 - i]) IN IF i % 2 = 1 THEN (IF 2 * v > 9 THEN 2 * v - 9 ELSE 2 * v) ELSE v, n)
